@@ -71,6 +71,71 @@ def replay_native(name, desc, inputs):
     return kernels.native_check(name, desc, inputs)
 
 
+def sample_inputs(desc, count=400, seed=0):
+    """Deterministic small inputs for one kernel (sizes 0..4, values with zeros, ties and exact cancellations against the
+    other operand, length-1 operands for the broadcasting branches) in the format of replay_native."""
+    import random
+    rng = random.Random(1009 * seed + 7)
+    pool = (0.0, 1.0, -1.0, 2.5, 0.5, -2.5, 3.0)
+    fam = 'binary' if desc[0] == 'binary' else desc[1]
+    kind = desc[2] if fam == 'binary' else (desc[3] if fam == 'logical' else None)
+
+    def fvec(size, like=None):
+        d = {}
+        for i in range(size):
+            v = rng.choice(pool)
+            if like is not None and i in like and rng.random() < 0.5:
+                v = rng.choice((-like[i], like[i]))          # exact cancellation / tie with the other operand
+            if v != 0: d[i] = v
+        return d
+    out = []
+    for _ in range(count):
+        n = rng.choice((1, 2, 3, 4, 1, 3, 0))
+        if fam == 'logical':
+            me = {'size': n, 'set': sorted(i for i in range(n) if rng.random() < 0.5)}
+            inp = {'self': me}
+            if kind == 'sparse':
+                m = rng.choice((n, n, n, 1, n + 1))
+                inp['other'] = {'size': m, 'set': sorted(i for i in range(m) if rng.random() < 0.5)}
+            elif kind == 'array':
+                m = rng.choice((n, n, n, 1, n + 1))
+                inp['other'] = {'array': [rng.choice((0.0, 1.0)) for _ in range(m)]}
+            elif kind == 'scalar':
+                inp['other'] = {'scalar': rng.random() < 0.5}
+            out.append(inp); continue
+        other = fvec(rng.choice((n, n, n, 1, n + 1)) if fam == 'binary' else n)
+        m = max(other) + 1 if other else 0
+        m = rng.choice((n, n, n, 1, n + 1)) if fam == 'binary' else n
+        other = {k: v for k, v in fvec(m).items()}
+        if fam == 'binary' and desc[1] == 'truediv':      # requires of the division contract: no zero divisor
+            other = {i: (other.get(i) or rng.choice((1.0, -1.0, 2.5, 0.5))) for i in range(m)}
+        me = {'size': n, 'dct': fvec(n, like=other), 'read_only': fam == 'unary' and rng.random() < 0.2}
+        inp = {'self': me}
+        if fam == 'binary':
+            if kind == 'sparse': inp['other'] = {'size': m, 'dct': other}
+            elif kind == 'array': inp['other'] = {'array': [other.get(i, 0.0) for i in range(m)]}
+            else: inp['other'] = {'scalar': rng.choice(tuple(v for v in pool + tuple(-v for v in me['dct'].values()) if v != 0 or desc[1] != 'truediv'))}
+        else:
+            inp['other'] = {'size': n, 'dct': {k: v for k, v in other.items() if k < n}}
+        out.append(inp)
+    return out
+
+
+def native_fallback(name, desc, seed=0):
+    """A kernel that the VC generator can no longer translate (it was proved on the baseline tree) is run natively on
+    sampled inputs against the same contract (NumPy as oracle).  Returns (failing inputs, failed clauses) or None."""
+    for inp in sample_inputs(desc, seed=seed):
+        try:
+            failed = replay_native(name, list(desc), inp)
+        except ZeroDivisionError:
+            continue
+        except Exception as e:
+            failed = [f'exception {type(e).__name__}: {e}']
+        if failed:
+            return inp, failed
+    return None
+
+
 def run(prop, tier, jobs, seed):
     from engine import runner
     t0 = time.time()
@@ -93,6 +158,29 @@ def run(prop, tier, jobs, seed):
             print(f"ENGINE-ERROR C09/U/{r['name']}: {r['error']}"); status = max(status, 3); continue
         if r['unsupported']:
             unsupported.append(f"{r['name']}: {r['unsupported']}")
+            if any(k.startswith(f"C09/U/{r['name']}/") for k in baseline):
+                # proved on the baseline tree, outside the VCG subset on this tree: never a silent pass.  The same contract is
+                # evaluated natively on sampled inputs; a failing input is a replayed violation, otherwise the kernel is
+                # reported as undecided by the engine (exit 3)
+                fb = None
+                try:
+                    fb = native_fallback(r['name'], r['desc'], seed)
+                except Exception as e:
+                    print(f"ENGINE-ERROR C09/U/{r['name']}: native fall-back failed: {type(e).__name__}: {e}")
+                if fb is not None:
+                    inputs, failed = fb
+                    ob = f"C09/U/{r['name']}/{failed[0]}"
+                    rdir = os.path.join(VERIF, 'replays', PROP); os.makedirs(rdir, exist_ok=True)
+                    path = os.path.join(rdir, ('U__' + r['name'] + '__native_fallback').replace('/', '_') + '.json')
+                    json.dump({'property': PROP, 'obligation': ob, 'function': fq, 'mode': 'U', 'solver_verdict': 'not translated: ' + r['unsupported'],
+                               'inputs': inputs, 'native_failed_clauses': failed,
+                               'replay_cmd': f'./check C09 --replay {os.path.relpath(path, VERIF)}'}, open(path, 'w'), indent=1, default=str)
+                    print(f'VIOLATION property={PROP} replay={path}')
+                    print(f"  kernel {r['name']} is no longer within the VC generator's subset ({r['unsupported']}); native run of the real kernel on a sampled input fails: {failed[:3]}")
+                    status = 1; viol += 1; n_ob += 1
+                else:
+                    print(f"ENGINE-ERROR C09/U/{r['name']}: proved on the baseline tree but no longer within the VC generator's subset ({r['unsupported']}); 400 sampled native runs satisfy the contract")
+                    if status == 0: status = 3
             continue
         functions.append({'name': fq, 'mode': 'U', 'paths': r['paths']})
         bad = [(n, v) for n, v in r['obligations'] if v != 'unsat']
